@@ -124,7 +124,22 @@ def run_case(case, ctx):
                     if not np.array_equal(new, st):
                         ctx.cell('curated_saved_reloaded')
                         f2 = dict(f, saved_and_reloaded=True)
-                        rs = call(m.save_spike_clusters, new)
+                        if case['seed'][-1] % 4 == 0:
+                            # curation done in place on the model's own array, which is then handed to save_spike_clusters
+                            ra = call(lambda: m.spike_clusters.__setitem__(slice(None), new))
+                            rg_ = call(m.get_merge_map)
+                            spec2_ = copy.copy(spec)
+                            spec2_.spike_clusters = new
+                            mm_live, nan_live = rt.merge_map(spec2_)
+                            if ra.ok and rg_.ok:
+                                got_live = {int(k): sorted(int(x) for x in v) for k, v in rg_.value[0].items()}
+                                if got_live != mm_live or same(np.asarray(m.spike_templates).astype(np.int64), st, dtype=False):
+                                    ctx.violation('merge_map', desc, 'after an in-place curation of a freshly loaded uncurated model: get_merge_map() %r, expected %r; '
+                                                  'spike_templates %s' % (got_live, mm_live, 'changed' if same(np.asarray(m.spike_templates).astype(np.int64), st, dtype=False) else 'unchanged'),
+                                                  dict(f2, in_place=True))
+                            rs = call(lambda: m.save_spike_clusters(m.spike_clusters))
+                        else:
+                            rs = call(m.save_spike_clusters, new)
                         call(m.close)
                         r2 = call(load_model, os.path.join(d, 'params.py'))
                         if not rs.ok or not r2.ok:
@@ -180,6 +195,10 @@ def run_case(case, ctx):
                     exp = [np.zeros((nsw, nc))]
                 elif len(ts) == 1:
                     exp = [T[ts[0]].astype(np.float64)]
+                    if not np.array_equal(np.asarray(D[c], dtype=np.float64), exp[0], equal_nan=True):
+                        ctx.violation('cluster_waveform', desc, 'cluster %d stems from template %d alone but does not carry its waveform unchanged (max difference %r)' % (
+                            c, ts[0], float(np.nanmax(np.abs(np.asarray(D[c], dtype=np.float64) - exp[0])))), dict(f, n_templates=1, exact=True))
+                        break
                 else:
                     cnt = np.array([(st[sc == c] == t).sum() for t in ts], dtype=np.float64)
                     acc = np.zeros((nsw, nc))
